@@ -87,6 +87,10 @@ class Sav:
             raise yatiml.SeasoningError('boom requested')
         if node.has_attribute('boom2'):
             raise yatiml.SeasoningError()
+        if node.has_attribute('boom3'):
+            raise ValueError('not a SeasoningError')
+        if node.has_attribute('boom4'):
+            raise KeyError('x')
 
 
 # ------------------------------------------------ M3 unions / optionals
